@@ -79,7 +79,7 @@ class SimProblem(Problem):
                 if float(np.dot(np.array(r["a"], float), x)) > r["b"]:
                     return idx, fl
             elif fl.get("at_x0"):
-                if self.x0_bytes is not None and x.tobytes() == self.x0_bytes:
+                if self.armed and self.x0_bytes is not None and x.tobytes() == self.x0_bytes:
                     return idx, fl
         return None, None
 
